@@ -595,7 +595,17 @@ def parse_module(text, source=''):
                     i += 1
                     if ']' in lines[i - 1]:
                         break
-            ins = parse_instr(s)
+            try:
+                ins = parse_instr(s)
+            except ParseError:
+                # keep going: the instruction only matters if an analysis actually reaches it
+                mdst = re.match(r'^(%"[^"]*"|%[-\w.$]+) = ', s)
+                ins = Instr('unparsed', mdst.group(1)[1:].strip('"') if mdst else None, text=s)
+                mdbg = re.search(r'!dbg (!\d+)', s)
+                ins.dbg = mdbg.group(1) if mdbg else None
+                # terminators must keep the CFG intact
+                if re.match(r'^(br|switch|ret|unreachable|indirectbr|invoke|resume|callbr)\b', s):
+                    raise
             ins.fn = cur.name
             ins.bb = curblock
             ins.idx = len(cur.blocks[curblock])
@@ -634,7 +644,15 @@ def parse_module(text, source=''):
                 m.types[mm.group(1)[1:].strip('"')] = p.type()
                 continue
         if s[0] == '@':
-            g = parse_global(s)
+            try:
+                g = parse_global(s)
+            except ParseError:
+                mg = re.match(r'^(@"[^"]*"|@[-\w.$]+) = (.*)$', s)
+                if not mg:
+                    raise
+                body = mg.group(2)
+                isconst = re.search(r'\bconstant\b', body.split('{')[0].split('[')[0]) is not None
+                g = Global(mg.group(1)[1:].strip('"'), ('opaque',), None, isconst, (), None)
             if g is not None:
                 m.globals[g.name] = g
             continue
@@ -757,6 +775,8 @@ def parse_define(s, decl=False):
         if pn is None:
             pn = str(k)
             k += 1
+        elif pn.isdigit():
+            k = int(pn) + 1          # unnamed values (parameters, then the entry block) are numbered consecutively
         newp.append((t, pn, attrs))
     f.params = newp
     if not decl:
